@@ -77,7 +77,7 @@ REACH = ["crash_points", "crash_inside_schema_script", "crash_between_insert_and
          "crash_after_commit", "crash_after_close", "wal_present_at_crash", "shm_present_at_crash", "reopen_cycles",
          "second_crash_during_recovery", "inflight_record_visible", "inflight_record_absent", "overflow_row",
          "batch_committed", "batch_left_by_error", "batch_left_by_ignorecommits", "stored_token_offered_again_without_content",
-         "crash_before_first_page_written"]
+         "crash_before_first_page_written", "stored_attestation_delivered_again"]
 SHRINK_FIELDS = ("ops",)
 
 ROOT = os.path.dirname(os.path.dirname(os.path.abspath(__file__)))
@@ -297,7 +297,7 @@ def _uses(ops: list) -> tuple[bool, bool]:
     ops = ops + [{"op": "read", "db": o.get("db")} for o in ops if o.get("op") == "batch"]
     uid = any(o.get("op") in ("cred", "attest", "recred", "retoken") or (o.get("op") in ("reopen", "read") and o.get("db") == "id")
               for o in ops)
-    uw = any(o.get("op") == "blob" or (o.get("op") in ("reopen", "read") and o.get("db") == "wallet") for o in ops)
+    uw = any(o.get("op") in ("blob", "reblob") or (o.get("op") in ("reopen", "read") and o.get("db") == "wallet") for o in ops)
     return uid, uw
 
 
@@ -432,6 +432,24 @@ class _Runner:
             self.wallet.insert_attestation(_StubAttestation(_bytes(f"blob/{bid}", int(op.get("size", 100)))),
                                            hashlib.sha1(f"blob/{bid}".encode()).digest(),  # noqa: S324
                                            _StubSecretKey(_bytes(f"sk/{bid}", int(op.get("ksize", 300)))), "id_metadata")
+        elif kind == "reblob":
+            # an attestation that is already stored is delivered once more (same hash, same bytes) and handed to the database again:
+            # the table has a primary key on the hash, so this insert fails (or is a no-op) - the stored record stays.  Called past
+            # the recording wrapper: it offers no new record.
+            import sqlite3
+            bid = op["id"]
+            if bid not in self.blobs:
+                return
+            if self.wallet is None:
+                self.open_wallet()
+            try:
+                type(self.wallet).insert_attestation(
+                    self.wallet, _StubAttestation(_bytes(f"blob/{bid}", int(op.get("size", 100)))),
+                    hashlib.sha1(f"blob/{bid}".encode()).digest(),  # noqa: S324
+                    _StubSecretKey(_bytes(f"sk/{bid}", int(op.get("ksize", 300)))), "id_metadata")
+            except sqlite3.IntegrityError:
+                pass
+            self.reblobs = getattr(self, "reblobs", 0) + 1
         elif kind == "retoken":
             # a token that is already stored (with its content) is seen again in its public, content-less form (as it arrives in
             # somebody's disclosure) and handed to the database once more: INSERT OR IGNORE must leave the stored record alone.
@@ -924,6 +942,8 @@ def _run_inproc(c, case: dict, tmp: str, keys: list, tag: str = "w"):  # noqa: A
         c.probe("overflow_row", runner.overflow)
     if getattr(runner, "retokens", 0):
         c.probe("stored_token_offered_again_without_content", runner.retokens)
+    if getattr(runner, "reblobs", 0):
+        c.probe("stored_attestation_delivered_again", runner.reblobs)
     for end, probe in (("ok", "batch_committed"), ("error", "batch_left_by_error"), ("ignore", "batch_left_by_ignorecommits")):
         if runner.batches.get(end):
             c.probe(probe, runner.batches[end])
@@ -1256,6 +1276,10 @@ def _scripted() -> list:
         ("content_then_bare_token", [cred(1, None, 0, 24, 300), cred(2, 1, 0, 24, 5000), {"op": "retoken", "p": 0, "cred": 1},
                                      {"op": "retoken", "p": 0, "cred": 2}, cred(3, 2), {"op": "retoken", "p": 0, "cred": 3},
                                      {"op": "read", "db": "id"}]),
+        ("redelivered_attestation", [{"op": "blob", "id": 1, "size": 200, "ksize": 300}, {"op": "blob", "id": 2, "size": 5000, "ksize": 300},
+                                     {"op": "reblob", "id": 1, "size": 200, "ksize": 300}, {"op": "blob", "id": 3, "size": 64},
+                                     {"op": "reopen", "db": "wallet"}, {"op": "reblob", "id": 2, "size": 5000, "ksize": 300},
+                                     {"op": "read", "db": "wallet"}]),
         ("reopen_storm", [cred(1), {"op": "reopen", "db": "id"}, {"op": "reopen", "db": "id"}, cred(2, 1),
                           {"op": "reopen", "db": "id"}, {"op": "read", "db": "id"}, {"op": "blob", "id": 1, "size": 10},
                           {"op": "reopen", "db": "wallet"}, {"op": "reopen", "db": "wallet"}]),
@@ -1270,7 +1294,12 @@ def _random_case(seed: int) -> dict:
     attested: set = set()
     nblob = 0
     for _ in range(n):
-        kind = rng.choices(["cred", "attest", "recred", "blob", "reopen", "read", "retoken"], [40, 14, 5, 20, 13, 8, 6])[0]
+        kind = rng.choices(["cred", "attest", "recred", "blob", "reopen", "read", "retoken", "reblob"], [40, 14, 5, 20, 13, 8, 6, 5])[0]
+        if kind == "reblob":
+            prev = [o for o in ops if o["op"] == "blob"]
+            if prev:
+                ops.append(dict(rng.choice(prev), op="reblob"))
+            continue
         if kind == "cred":
             p = rng.choice([0, 0, 1])
             cid = len(creds[p]) + 1
